@@ -64,6 +64,15 @@ def _split_fin(payloads, fin):
     return (",".join(ps[:-1]) or "-"), fin
 
 
+def _has_pct(payloads):
+    """some payload that has to be delivered contains a '%'"""
+    for q in payloads.split(","):
+        q = q.split(":")[0]
+        if q not in ("-", "") and b"%" in bytes.fromhex(q):
+            return True
+    return False
+
+
 def _nclass(n):
     return str(n) if n < 2 else "2-5" if n <= 5 else "6+"
 
@@ -234,6 +243,11 @@ def run(ctx):
         "when sseConnection.write refuses to write and what the keep-alive / ticker goroutines do is read off the source by go/extract/streamguard.go (Gen.StreamGuard) and re-proved on every run; that cancelling a context derived from the request's does nothing to the connection is net/http behaviour, exercised (server-side cancellation before / between / after payloads and by deadline, client connected), not modelled",
         "the multipart theorems are about payload values; the aggregator holds *graphql.Response pointers between flush ticks: that the bytes behind them do not change is proved for a buffer per response (Model/StreamAlias.lean) and the generated Exec is read for it (go/extract/execbuf.go on servers generated at check time from the current templates, both flavours); bytes.Buffer semantics (Reset keeps the array) are Go's, exercised on the wire, not modelled beyond that",
     ]
+    ctx.assumptions += [
+        "fmt.Fprintf writes the operand of %s verbatim and a literal without % as it is (Model/GoFmt.lean: goFmt models only %s, %%, a missing operand and a lone %; flags, widths, indexes are not modelled); which expressions the transports hand to Fprintf / Fprint / Write is read off the source by go/extract/streambytes.go (Gen.StreamBytes) and re-proved on every run; exercised with payloads full of %, printf verbs, CR/LF, this exchange's multipart delimiters, SSE fields, quotes, non-ASCII, HTML, controls and values of 2 KiB - 70 KiB at every member of a response",
+    ]
+    # how payload bytes reach the writer: stands on its own (it must be judged even when the other regenerated facts are unusable)
+    ok_bytes = ctx.extract("StreamBytes")
     ok_extract = ctx.extract("StreamFmt", "StreamLoop", "StreamGuard")
     # servers generated NOW from the current templates (the executor behind the transports)
     built = gensrv.build_matrix(ctx, WIRE_PROBE, WIRE_CFGS)
@@ -244,12 +258,19 @@ def run(ctx):
                            "shape": {"transport": "wire", "failure": "build", "config": c},
                            "replay": "generate probe %s with configuration %s from the current templates (lib/gensrv.py)" % (WIRE_PROBE, c)}, True)
     props = ["GqlgenVerif.Props.C12"]
+    if ok_bytes:
+        props.append("GqlgenVerif.Props.C12Bytes")
     if ok_extract and gen_ok:
         ok_extract = ctx.extract("ExecBuf", arg=",".join(os.path.join(vf.GO, "genout", "%s_%s" % (WIRE_PROBE, c)) for c in gen_ok))
         props.append("GqlgenVerif.Props.C12Exec")
     proved = bool(ok_extract) and ctx.prove(props=props)
     if ok_extract and not proved:
         ctx.cov["proof_failure"] = ctx.proof_failure
+    bytes_failed = False
+    if not ok_extract and ok_bytes:
+        bytes_failed = not ctx.prove(props=["GqlgenVerif.Props.C12Bytes"])
+        if bytes_failed:
+            ctx.cov["proof_failure"] = ctx.proof_failure
     have_model = bool(ok_extract) and getattr(ctx, "driver_ok", False)
 
     thorough = ctx.tier == "thorough"
@@ -377,6 +398,8 @@ def run(ctx):
                 elif it == PING and seen_event:
                     npings_between += 1
             branch["sse:" + desc] += 1
+            if _has_pct(payloads):
+                branch["sse:a payload contains '%'"] += 1
             branch["sse:ka=" + ("off" if ka == "0" else "<=5us" if int(ka) <= 5 else "<=200us" if int(ka) <= 200 else "ms")] += 1
             if race:
                 branch["sse:race-build"] += 1
@@ -385,7 +408,7 @@ def run(ctx):
             cancel = r[13]
             if cancel != "-":
                 branch["sse:request context cancelled on the server side, client connected" + (" (generated server)" if cancel.startswith("w") else "")] += 1
-            if npings_between or disc != "-1" or desc == "operr" or fin != "-" or cancel != "-" or desc.startswith("wire:"):
+            if npings_between or disc != "-1" or desc == "operr" or fin != "-" or cancel != "-" or desc.startswith("wire:") or "content" in desc:
                 nontriv.add(("sse", r[1], r[-1]))
             chk = m.get("chk")
             leanv, leanitems = (chk.split(" ", 1) + ["-"])[:2] if chk else (None, None)
@@ -428,6 +451,8 @@ def run(ctx):
             bnd, tmo, disc, payloads, raw, items, batches, gov, hstate, shape, desc, fin = r[2], r[3], r[4], r[7], r[8], r[9], r[10], r[11], r[12], r[13], r[14], r[15]
             bl = [] if batches == "-" else [int(x) for x in batches.split(",")]
             branch["mp:" + desc] += 1
+            if _has_pct(payloads):
+                branch["mp:a payload contains '%'"] += 1
             branch["mp:parts=" + (str(len(bl)) if len(bl) < 4 else "4+")] += 1
             branch["mp:maxbatch=" + (str(max(bl[1:] or [0])) if max(bl[1:] or [0]) < 3 else "3+")] += 1
             if race:
@@ -439,7 +464,7 @@ def run(ctx):
                 branch["mp:request context cancelled on the server side, client connected" + (" (generated server)" if cancel.startswith("w") else "")] += 1
             if desc.startswith("wire:") and max(bl[1:] or [0]) >= 2:
                 branch["mp:generated server, >= 2 payloads held across one flush"] += 1
-            if len(bl) >= 2 or disc != "-1" or shape != "1" or fin != "-" or cancel != "-":
+            if len(bl) >= 2 or disc != "-1" or shape != "1" or fin != "-" or cancel != "-" or "content" in desc:
                 nontriv.add(("mp", r[1], r[-1]))
             chk = m.get("chk")
             leanv, leanitems = (chk.split(" ", 1) + ["-"])[:2] if chk else (None, None)
@@ -483,16 +508,16 @@ def run(ctx):
             elif len(samples) < 5 and len(bl) >= 2 and _hexlen(raw) < 500:
                 samples.append({"transport": "multipart/mixed", "boundary_hex": bnd, "payloads_hex_hasNext": payloads, "impl_bytes_hex": raw, "batches": batches})
 
-    if ok_extract and not proved and not any(not nf for _, nf in ctx.violations):
+    if ((ok_extract and not proved) or bytes_failed) and not any(not nf for _, nf in ctx.violations):
         # a theorem over the regenerated facts no longer checks and no failing input was found above
         ctx.violation({"kind": "proof", "failing": ctx.proof_failure,
-                       "replay": "cd /verif/lean && lake build %s   # theorems over Gen/StreamFmt.lean, Gen/StreamLoop.lean, Gen/StreamGuard.lean regenerated from /repo and Gen/ExecBuf.lean regenerated from servers generated from the current templates" % " ".join(props)},
+                       "replay": "cd /verif/lean && lake build %s   # theorems over Gen/StreamBytes.lean, Gen/StreamFmt.lean, Gen/StreamLoop.lean, Gen/StreamGuard.lean regenerated from /repo and Gen/ExecBuf.lean regenerated from servers generated from the current templates" % " ".join(props)},
                       no_failing_input=True)
 
     ctx.cov.update({
         "evaluations": len(rows),
         "distinct_nontrivial": len(nontriv),
-        "rule": "one evaluation = one real HTTP exchange with the transport behind httptest.Server (hand-built ExecutableSchema, 0-50 payloads with adversarial strings, inter-payload delays 0-2.7ms, keep-alive 1us-5ms / flush tick 1ms-3ms, 10 boundaries, client disconnect points; an operation ends by nil or by a panic raised while the next response is being built - after 0, 1 or many good payloads, 5 kinds of panic value x 5 RecoverFuncs - whose error response must be delivered as the last payload), the request context cancelled ON THE SERVER SIDE while the client keeps reading - just before response k is built, k = 0..n, or by a deadline of 1us-3ms - with an operation that goes on / ends / says a last word; the same exchange against a server GENERATED at check time from the current templates (probe c12: generated @defer queries, directed corpus/C12/*.jsonl, generated subscriptions; multipart/mixed with DeliveryTimeout 1ms / 2ms / 200ms with and without resolver delays so that payloads are held across flush ticks, SSE with keep-alive off / 100us / 1ms, subscriptions over both, server-side cancellation at a logical-clock value; both template flavours), where the payloads that must arrive are json.Marshal of every response taken when the executor returned it), bytes parsed by bufio/mime-multipart parsers, by the Lean parsers, and compared byte-exactly with the Lean model (response loop regenerated from source + writer model) run on the operation and the observed schedule. Non-trivial = SSE case with a ping between two events, an operation-error stream, a disconnect, a panic, a server-side cancellation or a generated server; multipart case with >= 2 parts, a disconnect, a panic, a server-side cancellation, or a hasNext sequence outside the shape (judged on content: mpContentSpec)",
+        "rule": "one evaluation = one real HTTP exchange with the transport behind httptest.Server (hand-built ExecutableSchema, 0-50 payloads with adversarial strings - CONTENT classes printf ('%', verbs), lines (CR/LF), ssefield, boundary (this exchange's delimiters), quotes, nonascii, html, ctrl, long (2 KiB - 70 KiB) drawn everywhere in random cases and, in directed cases, every class at every member of a response (data value / data key / error message / error extensions / response extensions / label / path / text of the panic that ends the operation) on both transports, corpus/C12/content-*.json, corpus/C12/wire-content.jsonl for the generated servers -, inter-payload delays 0-2.7ms, keep-alive 1us-5ms / flush tick 1ms-3ms, 10 boundaries, client disconnect points; an operation ends by nil or by a panic raised while the next response is being built - after 0, 1 or many good payloads, 5 kinds of panic value x 5 RecoverFuncs - whose error response must be delivered as the last payload), the request context cancelled ON THE SERVER SIDE while the client keeps reading - just before response k is built, k = 0..n, or by a deadline of 1us-3ms - with an operation that goes on / ends / says a last word; the same exchange against a server GENERATED at check time from the current templates (probe c12: generated @defer queries, directed corpus/C12/*.jsonl, generated subscriptions; multipart/mixed with DeliveryTimeout 1ms / 2ms / 200ms with and without resolver delays so that payloads are held across flush ticks, SSE with keep-alive off / 100us / 1ms, subscriptions over both, server-side cancellation at a logical-clock value; both template flavours), where the payloads that must arrive are json.Marshal of every response taken when the executor returned it), bytes parsed by bufio/mime-multipart parsers, by the Lean parsers, and compared byte-exactly with the Lean model (response loop regenerated from source + writer model) run on the operation and the observed schedule. Non-trivial = a directed content case; SSE case with a ping between two events, an operation-error stream, a disconnect, a panic, a server-side cancellation or a generated server; multipart case with >= 2 parts, a disconnect, a panic, a server-side cancellation, or a hasNext sequence outside the shape (judged on content: mpContentSpec)",
         "input_distribution": dict(branch),
         "kinds": dict(kinds),
         "plain_build_cases": n_plain,
